@@ -83,7 +83,8 @@ def run(prop, tier):
     first = {}
     for i, s in enumerate(states):
         first.setdefault(core(s), i)
-    sel_r = [i for i, s in enumerate(states) if tier == "quick" or i % 10 == 0 or "%rip" in core(s) and "call" in core(s)]
+    # (all states in the quick tier, every tenth in the thorough tier -- see the remark on validation time above)
+    sel_r = [i for i, s in enumerate(states) if tier == "quick" or i % 10 == 0]
     need = sorted(set(sel_r) | {first[core(states[i])] for i in sel_r})
     robs = dict(zip(need, parsepipe.parse_texts([texts[i] for i in need], "c16r", rule=RANGE_RULE)))
     rcases = [parsepipe.case("pair", states[first[core(states[i])]]["text"], [], robs[first[core(states[i])]], states[i]["text"], robs[i])
